@@ -60,7 +60,7 @@ def rule_a(prog, rep):
         tr = Tracer(crate, classify_core(fall), value_of_call=fall.value_of)
         tr.env = {}
         body_paths = tr.expr(loops[0]['body'])
-        bad = [t for (ex, t, v) in body_paths if ex in ('fall', 'continue') and sum(1 for x in t if base(x) == 'notify') != 1]
+        bad = [t for (ex, t, v) in body_paths if ex.split(':')[0] in ('fall', 'continue') and sum(1 for x in t if base(x) == 'notify') != 1]
         if bad:
             rep.violation('C03.a', f'Worterbuch::{fname}', loc(f, loops[0]), f'an iteration completes with '
                           f'{sum(1 for x in bad[0] if base(x) == "notify")} notifications: {list(bad[0])}',
